@@ -28,6 +28,7 @@ type pendingOp struct {
 	kind opKind
 	mu   *RWMutex
 	loc  string
+	free bool // switching away at this point is not counted as a preemption (operation boundary)
 }
 
 type thread struct {
@@ -43,6 +44,7 @@ type Point struct {
 	Enabled        []int // thread ids in canonical order (running thread first if still enabled)
 	Choice         int   // index into Enabled
 	RunningEnabled bool  // the thread that was running is Enabled[0]
+	Free           bool  // the running thread is between two operations: a switch here is not a preemption
 	Loc            string
 }
 
@@ -67,7 +69,7 @@ func (x *Exec) Choices() []int {
 func (x *Exec) PreemptionsBefore(i int) int {
 	n := 0
 	for _, p := range x.Points[:i] {
-		if p.RunningEnabled && p.Choice != 0 {
+		if p.RunningEnabled && p.Choice != 0 && !p.Free {
 			n++
 		}
 	}
@@ -124,7 +126,7 @@ func (s *sched) enabled(t *thread) bool {
 }
 
 // pick computes the enabled set, consumes one choice and records the point. nil = nobody enabled.
-func (s *sched) pick(loc string) *thread {
+func (s *sched) pick(loc string, free bool) *thread {
 	var en []int
 	runningEnabled := false
 	if s.cur >= 0 && s.enabled(s.threads[s.cur]) {
@@ -148,7 +150,7 @@ func (s *sched) pick(loc string) *thread {
 			return nil
 		}
 	}
-	s.exec.Points = append(s.exec.Points, Point{Enabled: en, Choice: choice, RunningEnabled: runningEnabled, Loc: loc})
+	s.exec.Points = append(s.exec.Points, Point{Enabled: en, Choice: choice, RunningEnabled: runningEnabled, Free: free && runningEnabled, Loc: loc})
 	s.steps++
 	return s.threads[en[choice]]
 }
@@ -183,7 +185,7 @@ func (s *sched) point(op pendingOp) {
 		s.abort()
 		runtime.Goexit()
 	}
-	next := s.pick(op.loc)
+	next := s.pick(op.loc, op.free)
 	if next == nil {
 		if s.exec.Diverged == "" {
 			s.exec.Deadlock = true
@@ -227,7 +229,7 @@ func (s *sched) finish(t *thread) {
 		s.closeFin()
 		return
 	}
-	next := s.pick("finish")
+	next := s.pick("finish", false)
 	if next == nil {
 		if s.exec.Diverged == "" {
 			s.exec.Deadlock = true
@@ -285,7 +287,7 @@ func Run(bodies []func(), prefix []int, onStep func(tid int, loc string)) *Exec 
 			body()
 		}()
 	}
-	first := s.pick("start")
+	first := s.pick("start", false)
 	if first == nil {
 		s.abort()
 		s.closeFin()
@@ -321,6 +323,17 @@ func Yield(loc string) {
 		return
 	}
 	s.point(pendingOp{kind: opYield, loc: loc})
+}
+
+// Boundary is called by a harness thread BETWEEN two operations of its program. It is a scheduling
+// point at which switching to another thread is free (not a preemption): the thread is not in
+// the middle of anything, exactly like a thread that has not started yet.
+func Boundary(loc string) {
+	s := active.Load()
+	if s == nil || s.cur < 0 {
+		return
+	}
+	s.point(pendingOp{kind: opYield, loc: loc, free: true})
 }
 
 // ---------------------------------------------------------------- sync shim
@@ -367,11 +380,88 @@ func (m *RWMutex) RUnlock() {
 	m.real.RUnlock()
 }
 
-// Mutex is provided for completeness (sync.Mutex users).
+// writerPending: some controlled thread is parked at Lock() of m (it has announced itself, like
+// the real RWMutex whose TryRLock fails as soon as a writer is waiting).
+func (s *sched) writerPending(m *RWMutex) bool {
+	for _, t := range s.threads {
+		if !t.done && t.id != s.cur && t.pend.kind == opLock && t.pend.mu == m {
+			return true
+		}
+	}
+	return false
+}
+
+// TryLock / TryRLock never block: they are plain scheduling points followed by an atomic attempt.
+func (m *RWMutex) TryLock() bool {
+	if s := active.Load(); s != nil && s.cur >= 0 {
+		s.point(pendingOp{kind: opYield, loc: "TryLock"})
+		if m.w || m.r > 0 {
+			return false
+		}
+		m.w = true
+		return true
+	}
+	return m.real.TryLock()
+}
+
+func (m *RWMutex) TryRLock() bool {
+	if s := active.Load(); s != nil && s.cur >= 0 {
+		s.point(pendingOp{kind: opYield, loc: "TryRLock"})
+		if m.w || s.writerPending(m) {
+			return false
+		}
+		m.r++
+		return true
+	}
+	return m.real.TryRLock()
+}
+
+type rlocker RWMutex
+
+func (r *rlocker) Lock()   { (*RWMutex)(r).RLock() }
+func (r *rlocker) Unlock() { (*RWMutex)(r).RUnlock() }
+
+// RLocker mirrors sync.RWMutex.RLocker.
+func (m *RWMutex) RLocker() Locker { return (*rlocker)(m) }
+
+// Mutex mirrors sync.Mutex on top of the modelled RWMutex.
 type Mutex struct{ rw RWMutex }
 
-func (m *Mutex) Lock()   { m.rw.Lock() }
-func (m *Mutex) Unlock() { m.rw.Unlock() }
+func (m *Mutex) Lock()         { m.rw.Lock() }
+func (m *Mutex) Unlock()       { m.rw.Unlock() }
+func (m *Mutex) TryLock() bool { return m.rw.TryLock() }
+
+// Once mirrors sync.Once with modelled blocking (a second caller waits until the first returns).
+type Once struct {
+	m    Mutex
+	done bool
+}
+
+func (o *Once) Do(f func()) {
+	o.m.Lock()
+	defer o.m.Unlock()
+	if !o.done {
+		defer func() { o.done = true }()
+		f()
+	}
+}
+
+// The remaining names of package sync are passed through unchanged (their operations are atomic
+// steps between the statement-level scheduling points; none of them blocks in the explored code).
+type (
+	Locker    = sync.Locker
+	Map       = sync.Map
+	Pool      = sync.Pool
+	WaitGroup = sync.WaitGroup
+	Cond      = sync.Cond
+)
+
+func NewCond(l Locker) *Cond { return sync.NewCond(l) }
+
+func OnceFunc(f func()) func() {
+	var o Once
+	return func() { o.Do(f) }
+}
 
 // ---------------------------------------------------------------- explorer
 
@@ -411,7 +501,7 @@ func Explore(mk func() []func(), bound int, maxExec int, onStep func(int, string
 				continue
 			}
 			cost := x.PreemptionsBefore(i)
-			if p.RunningEnabled {
+			if p.RunningEnabled && !p.Free {
 				cost++
 			}
 			if bound >= 0 && cost > bound {
